@@ -58,6 +58,18 @@ def corner_cases(year):
             s = person(10, 1, 50, year, selbstständig=True, eink_selbst_m=wage, vermögen_bedürft=wealth, eink_vermietung_m=-500.0)
             yield f"self-employed-{wage:g}-wealth-{wealth:g}", [s]
             yield f"rich-pensioner-{wage:g}-{wealth:g}", [retiree(10, 1, 70, year, 80.0, priv_rente_m=wage / 10, vermögen_bedürft=wealth, kapitaleink_brutto_m=wage)]
+    # parental leave with a sibling under three (sibling bonus) and with twins, previous net income across and far above the assessment maximum
+    for prev in (300.0, 1000.0, 1240.0, 2770.0, 4000.0, 12000.0, 1e5):
+        for kids, label in ((2, "sibling-under-3"), (3, "two-siblings"), (1, "only-child")):
+            rows = family_with_kids(year, kids, wage=0.0)
+            rows[0].update(elterngeld_nettoeinkommen_vorjahr_m=prev, elterngeld_zu_verst_eink_vorjahr_y_sn=min(prev * 14, 150000.0))
+            rows[1].update(elterngeld_zu_verst_eink_vorjahr_y_sn=min(prev * 14, 150000.0))
+            yield f"elterngeld-{label}-prev-{prev:g}", rows
+        rows = family_with_kids(year, 2, wage=0.0)
+        rows[3].update(alter=0, geburtsjahr=year)  # twins
+        rows[0].update(elterngeld_nettoeinkommen_vorjahr_m=prev, elterngeld_zu_verst_eink_vorjahr_y_sn=min(prev * 14, 150000.0))
+        rows[1].update(elterngeld_zu_verst_eink_vorjahr_y_sn=min(prev * 14, 150000.0))
+        yield f"elterngeld-twins-prev-{prev:g}", rows
     # unemployed with very high / zero previous wage, parental leave with huge previous income
     for prev in (0.0, 450.0, 3000.0, 1e5):
         yield f"alg1-prev-{prev:g}", [worker(10, 1, 45, year, 0.0, arbeitssuchend=True, bruttolohn_vorj_m=prev, anwartschaftszeit=True, sozialv_pflicht_5j=60.0,
@@ -127,14 +139,22 @@ def judge(out, df, r, p, case):
                     if bad.any():
                         i = int(np.argmax(bad))
                         out.violation(f"cap:{col}>employee-rate*ceiling", {**case, "row": i, "value": float(v[i]), "cap": float(cap[i])}, f"{col} {v[i]} > {cap[i]}")
-    # ---- Elterngeld <= maximum plus bonuses
+    # ---- Elterngeld <= maximum plus bonuses (sibling bonus: the larger of the percentage and the minimum; one multiple-birth bonus per further
+    #      child born on the same day as the youngest child of the household)
     if "elterngeld_m" in r.columns:
         eg = p["elterngeld"]
-        cap = eg["höchstbetrag"] * (1 + eg.get("geschwisterbonus_aufschlag", 0.1)) + eg.get("geschwisterbonus_minimum", 75.0) + 3 * eg.get("mehrlingbonus", 300.0)
+        hb = eg["höchstbetrag"]
+        sib = max(hb * eg.get("geschwisterbonus_aufschlag", 0.1), eg.get("geschwisterbonus_minimum", 75.0))
         v = r["elterngeld_m"].to_numpy().astype(float)
-        if (v > cap + eps).any():
-            i = int(np.argmax(v > cap + eps))
-            out.violation("cap:elterngeld_m>maximum+bonuses", {**case, "row": i, "value": float(v[i]), "cap": float(cap)}, f"elterngeld_m {v[i]} > {cap}")
+        born = list(zip(df["hh_id"].tolist(), df["geburtsjahr"].tolist(), df["geburtsmonat"].tolist(), df["geburtstag"].tolist(), df["alter"].tolist()))
+        for i in range(len(df)):
+            babies = [b for b in born if b[0] == born[i][0] and b[4] <= 3]
+            multiples = max([sum(1 for c in babies if c[1:4] == b[1:4]) for b in babies], default=1)
+            cap = hb + sib + eg.get("mehrlingbonus", 300.0) * max(multiples - 1, 0)
+            if v[i] > cap + eps:
+                out.violation(f"cap:elterngeld_m>maximum+bonuses:excess={v[i] - cap:.2f}", {**case, "row": i, "value": float(v[i]), "cap": float(cap)},
+                              f"elterngeld_m {v[i]} > maximum {hb} + sibling bonus {sib} + multiple-birth bonuses ({multiples - 1})")
+                break
     # ---- Kindergeld <= claims x highest rate
     if "kindergeld_m" in r.columns and "kindergeld_anz_ansprüche" in r.columns:
         kg = p["kindergeld"]["kindergeld"]
@@ -210,7 +230,7 @@ def run(tier):
     rep.bound = {"dates": dates, "deviation_dates": dev_dates, "ages": "0-100", "children": "0-10", "incomes": "0 .. 1e7", "wealth": "0 .. 1e8"}
     rep.assumptions = ["caps are read from the parameters of the date: employee pension/unemployment contribution <= rate x ceiling; health/care "
                        "contribution <= 2 x full rate x ceiling (wage or self-employment income and pension are assessed separately) and <= employee "
-                       "rate x ceiling for plain employees; Elterngeld <= maximum x (1 + sibling bonus) + minimum sibling bonus + 3 multiple-birth bonuses"]
+                       "rate x ceiling for plain employees; Elterngeld <= maximum + sibling bonus (larger of percentage and minimum) + one multiple-birth bonus per further child born the same day"]
     return rep.finish(
         "corner stages (every age 18-100 as worker/retiree/no income, children aged 0-24, 0-10 children for couples and single parents, incomes "
         "0..1e7, wealth 0..1e8, negative rental income, unemployment / parental leave with extreme previous incomes) + library households + k=1 "
